@@ -21,6 +21,7 @@ import (
 	"fmt"
 	"net/http/httptest"
 	"os"
+	"sort"
 	"strings"
 	"time"
 
@@ -78,9 +79,7 @@ func (e *env) filer() *filer.Filer {
 		hx.Must(err)
 		st := &leveldb.LevelDBStore{}
 		hx.Must(st.Initialize(mapConf{"dir": dir}, ""))
-		f := &filer.Filer{}
-		f.SetStore(st)
-		e.f = f
+		e.f = filer.NewFilerForVerif(st, "/buckets")
 	}
 	return e.f
 }
@@ -640,6 +639,423 @@ func (e *env) filerCase(out *hx.Out, r *hx.Rng, kind string) {
 		out.Count(fmt.Sprintf("filer:found=%v", found), 1)
 	}
 	out.Add("(CFiler "+hx.List(obs)+")", "F:"+strings.Join(canon, ","), true, kind)
+}
+
+// ---------- filer histories: multi-step sequences on a real Filer over leveldb ----------
+
+type seqChunk struct {
+	id      int
+	s       int32
+	append  uint64
+	minutes uint64
+}
+
+type seqEnt struct {
+	cr, mt int64
+	ttl    int32
+	chunks []int
+}
+
+func (x seqEnt) coq() string {
+	ids := make([]uint64, len(x.chunks))
+	for i, c := range x.chunks {
+		ids[i] = uint64(c)
+	}
+	return fmt.Sprintf("{| fe_crtime := %s; fe_mtime := %s; fe_ttl := %s; fe_chunks := %s |}",
+		hx.N(uint64(x.cr)), hx.N(uint64(x.mt)), hx.Z(int64(x.ttl)), hx.NList(ids))
+}
+
+func chunkFid(id int) string { return fmt.Sprintf("3,%02x637037d6", id+1) }
+
+// one attempt at a history; ok=false when a deadline fell inside the clock bracket of a
+// step (the caller retries with fresh times)
+type seqRun struct {
+	e       *env
+	f       *filer.Filer
+	dir     string
+	T       int64 // second in which the history starts
+	chunks  []seqChunk
+	byFid   map[string]int
+	steps   []string
+	canon   []string
+	t1s     []uint64
+	t2s     []uint64
+	crs     map[int64]bool
+	ttls    map[int32]bool
+	seen    int
+	counts  map[string]int
+}
+
+func (q *seqRun) path(p int) util.FullPath { return util.FullPath(fmt.Sprintf("%s/f%d", q.dir, p)) }
+
+func (q *seqRun) newChunk(s int32, append uint64) int {
+	id := len(q.chunks)
+	q.chunks = append2(q.chunks, seqChunk{id: id, s: s, append: append, minutes: realMinutes(needle.SecondsToTTL(s))})
+	q.byFid[chunkFid(id)] = id
+	return id
+}
+
+func append2(l []seqChunk, c seqChunk) []seqChunk { return append(l, c) }
+
+func (q *seqRun) toEntry(p int, x seqEnt) *filer.Entry {
+	ent := &filer.Entry{FullPath: q.path(p), Attr: filer.Attr{Crtime: time.Unix(x.cr, 0), Mtime: time.Unix(x.mt, 0), Mode: 0644, TtlSec: x.ttl}}
+	for i, c := range x.chunks {
+		ent.Chunks = append(ent.Chunks, &filer_pb.FileChunk{FileId: chunkFid(c), Offset: int64(i) * 10, Size: 10, Mtime: int64(q.chunks[c].append)})
+	}
+	q.crs[x.cr] = true
+	q.ttls[x.ttl] = true
+	return ent
+}
+
+func (q *seqRun) fromEntry(ent *filer.Entry) seqEnt {
+	x := seqEnt{cr: ent.Crtime.Unix(), mt: ent.Mtime.Unix(), ttl: ent.TtlSec}
+	for _, c := range ent.Chunks {
+		id, ok := q.byFid[c.GetFileIdString()]
+		if !ok {
+			panic("unknown chunk " + c.GetFileIdString())
+		}
+		x.chunks = append(x.chunks, id)
+	}
+	q.crs[x.cr] = true
+	q.ttls[x.ttl] = true
+	return x
+}
+
+func (q *seqRun) snapshot() string {
+	ctx := context.Background()
+	var l []string
+	for p := 0; p < 3; p++ {
+		ent, err := q.f.Store.FindEntry(ctx, q.path(p))
+		if err == filer_pb.ErrNotFound {
+			continue
+		}
+		hx.Must(err)
+		l = append(l, hx.Pair(hx.N(uint64(p)), q.fromEntry(ent).coq()))
+	}
+	return hx.List(l)
+}
+
+func (q *seqRun) record(t1, t2 uint64, op, res, canon string) {
+	q.steps = append(q.steps, fmt.Sprintf("{| fq_t1 := %s; fq_t2 := %s; fq_op := %s; fq_res := %s; fq_snap := %s |}",
+		hx.N(t1), hx.N(t2), op, res, q.snapshot()))
+	q.t1s = append(q.t1s, t1)
+	q.t2s = append(q.t2s, t2)
+	q.canon = append(q.canon, canon)
+	q.counts["fseq:"+strings.SplitN(canon, " ", 2)[0]]++
+}
+
+func (q *seqRun) insert(p int, x seqEnt, canon string) {
+	ent := q.toEntry(p, x)
+	t1 := nowNs()
+	hx.Must(q.f.Store.InsertEntry(context.Background(), ent))
+	t2 := nowNs()
+	q.record(t1, t2, fmt.Sprintf("(FInsert %s %s)", hx.N(uint64(p)), x.coq()), "(RDone 0)", canon)
+}
+
+func (q *seqRun) create(p int, x seqEnt, excl bool, canon string) {
+	ent := q.toEntry(p, x)
+	t1 := nowNs()
+	err := q.f.CreateEntry(context.Background(), ent, excl, false, nil)
+	t2 := nowNs()
+	code := 0
+	if err != nil {
+		if !strings.Contains(err.Error(), "EEXIST") {
+			panic(err)
+		}
+		code = 1
+	}
+	q.record(t1, t2, fmt.Sprintf("(FCreate %s %s %s)", hx.N(uint64(p)), x.coq(), hx.Bool(excl)), fmt.Sprintf("(RDone %d)", code), canon)
+}
+
+// what the gRPC UpdateEntry handler does with the filer: FindEntry, then Filer.UpdateEntry(old, new)
+func (q *seqRun) update(p int, x seqEnt, canon string) {
+	ctx := context.Background()
+	ent := q.toEntry(p, x)
+	t1 := nowNs()
+	old, err := q.f.FindEntry(ctx, q.path(p))
+	code := 0
+	if err != nil {
+		if err != filer_pb.ErrNotFound {
+			panic(err)
+		}
+		code = 2
+	} else {
+		hx.Must(q.f.UpdateEntry(ctx, old, ent))
+	}
+	t2 := nowNs()
+	q.record(t1, t2, fmt.Sprintf("(FUpdate %s %s)", hx.N(uint64(p)), x.coq()), fmt.Sprintf("(RDone %d)", code), canon)
+}
+
+func (q *seqRun) find(p int, canon string) (seqEnt, bool) {
+	t1 := nowNs()
+	ent, err := q.f.FindEntry(context.Background(), q.path(p))
+	t2 := nowNs()
+	if err != nil && err != filer_pb.ErrNotFound {
+		panic(err)
+	}
+	if err != nil || ent == nil {
+		q.record(t1, t2, fmt.Sprintf("(FFind %s)", hx.N(uint64(p))), "(RFound None)", canon)
+		q.counts["fseq:find-none"]++
+		return seqEnt{}, false
+	}
+	x := q.fromEntry(ent)
+	q.seen++
+	q.counts["fseq:find-some"]++
+	if x.mt != x.cr {
+		q.counts["fseq:seen-with-mtime<>crtime"]++
+	}
+	q.record(t1, t2, fmt.Sprintf("(FFind %s)", hx.N(uint64(p))), "(RFound "+hx.Some(x.coq())+")", canon)
+	return x, true
+}
+
+func (q *seqRun) list(canon string) {
+	t1 := nowNs()
+	ents, _, err := q.f.ListDirectoryEntries(context.Background(), util.FullPath(q.dir), "", false, 100, "", "", "")
+	t2 := nowNs()
+	hx.Must(err)
+	var l []string
+	for _, ent := range ents {
+		var p int
+		if _, err := fmt.Sscanf(ent.Name(), "f%d", &p); err != nil {
+			panic(err)
+		}
+		l = append(l, hx.Pair(hx.N(uint64(p)), q.fromEntry(ent).coq()))
+		q.seen++
+	}
+	q.counts[fmt.Sprintf("fseq:listed=%d", len(ents))]++
+	q.record(t1, t2, "FList", "(RListed "+hx.List(l)+")", canon)
+}
+
+func (q *seqRun) del(p int, canon string) {
+	t1 := nowNs()
+	hx.Must(q.f.Store.DeleteEntry(context.Background(), q.path(p)))
+	t2 := nowNs()
+	q.record(t1, t2, fmt.Sprintf("(FDelete %s)", hx.N(uint64(p))), "(RDone 0)", canon)
+}
+
+// the HTTP append path (?op=append): look the entry up, keep it (Crtime, TtlSec, old
+// chunks), move Mtime to now, add a chunk uploaded now under the entry's TtlSec; a
+// missing entry is created fresh
+func (q *seqRun) modify(p int, ttl int32, canon string) {
+	x, ok := q.find(p, canon+" lookup")
+	now := nowNs()
+	if ok {
+		x.mt = int64(now / ns)
+		x.chunks = append(append([]int{}, x.chunks...), q.newChunk(x.ttl, now))
+	} else {
+		x = seqEnt{cr: int64(now / ns), mt: int64(now / ns), ttl: ttl, chunks: []int{q.newChunk(ttl, now)}}
+	}
+	q.create(p, x, false, canon)
+}
+
+func (q *seqRun) sleepUntil(t uint64) {
+	if n := nowNs(); n < t {
+		time.Sleep(time.Duration(t - n))
+	}
+}
+
+// no deadline (Crtime + TtlSec of any combination of values in play, and no chunk's
+// read deadline) inside the clock bracket of a step
+func (q *seqRun) clean() bool {
+	var ds []uint64
+	for cr := range q.crs {
+		for ttl := range q.ttls {
+			if ttl > 0 {
+				ds = append(ds, uint64(cr+int64(ttl))*ns)
+			}
+		}
+	}
+	for _, c := range q.chunks {
+		if c.minutes > 0 {
+			ds = append(ds, c.append+c.minutes*60*ns)
+		}
+	}
+	for i := range q.t1s {
+		for _, d := range ds {
+			if q.t1s[i] <= d+1000000 && d <= q.t2s[i]+1000000 {
+				return false
+			}
+		}
+	}
+	return true
+}
+
+var seqTtls = []int{60, 60, 60, 120, 3600, 86400, 7200, 90, 0, 45, 61}
+var seqOffs = []int{-3600, -600, -61, -10, -4, 4, 10, 61, 3600}
+var seqDeltas = []int{1, 1000000, 500000000, -5000000}
+
+// a new entry with one chunk: Crtime = T - ttl - off (off > 0: past its deadline)
+func (q *seqRun) genEnt(r *hx.Rng, mtimeNow bool) (seqEnt, string) {
+	ttl := int32(r.PickInt(seqTtls))
+	off := int64(r.PickInt(seqOffs))
+	cr := q.T - int64(ttl) - off
+	kind := fmt.Sprintf("ttl%d/off%d", ttl, off)
+	if r.Chance(1, 5) {
+		cr = q.T
+		kind = fmt.Sprintf("ttl%d/fresh", ttl)
+	}
+	delta := int64(r.PickInt(seqDeltas))
+	x := seqEnt{cr: cr, mt: cr, ttl: ttl, chunks: []int{q.newChunk(ttl, uint64(cr*int64(ns)+delta))}}
+	if mtimeNow {
+		x.mt = q.T
+		kind += "/mtime=now"
+	}
+	return x, fmt.Sprintf("%s/d%d", kind, delta)
+}
+
+func (q *seqRun) random(r *hx.Rng) {
+	n := r.Range(5, 10)
+	last := map[int]seqEnt{}
+	slept := false
+	for i := 0; i < n; i++ {
+		p := r.Intn(3)
+		switch k := r.Intn(20); {
+		case k < 4:
+			x, c := q.genEnt(r, r.Chance(1, 3))
+			excl := r.Chance(1, 6)
+			last[p] = x
+			q.create(p, x, excl, fmt.Sprintf("create f%d %s excl=%v", p, c, excl))
+		case k < 7:
+			x, c := q.genEnt(r, r.Bool())
+			last[p] = x
+			q.insert(p, x, fmt.Sprintf("insert f%d %s", p, c))
+		case k < 10:
+			q.modify(p, int32(r.PickInt(seqTtls)), fmt.Sprintf("modify f%d", p))
+		case k < 12:
+			// gRPC-style update: new Mtime, a Crtime the filer must ignore, same or new TtlSec
+			x, ok := last[p]
+			if !ok {
+				x, _ = q.genEnt(r, true)
+			}
+			x.cr, x.mt = q.T, q.T
+			if r.Chance(1, 4) {
+				x.ttl = int32(r.PickInt(seqTtls))
+			}
+			q.update(p, x, fmt.Sprintf("update f%d ttl%d", p, x.ttl))
+		case k < 16:
+			q.find(p, fmt.Sprintf("find f%d", p))
+		case k < 18:
+			q.list("list")
+		case k < 19:
+			q.del(p, fmt.Sprintf("delete f%d", p))
+		default:
+			if !slept && r.Chance(1, 2) {
+				// an entry with 3 s left, modified now, then looked at after its deadline
+				slept = true
+				x := seqEnt{cr: q.T - 60 + 3, mt: q.T - 60 + 3, ttl: 60}
+				x.chunks = []int{q.newChunk(60, uint64(x.cr)*ns+1000000)}
+				q.create(p, x, false, fmt.Sprintf("create f%d 3s-to-live", p))
+				q.modify(p, 60, fmt.Sprintf("modify f%d", p))
+				q.sleepUntil(uint64(q.T+3)*ns + 1200*1000000)
+				q.find(p, fmt.Sprintf("find-after-wait f%d", p))
+			} else {
+				q.find(p, fmt.Sprintf("find f%d", p))
+			}
+		}
+	}
+	for p := 0; p < 3; p++ {
+		q.find(p, fmt.Sprintf("final-find f%d", p))
+	}
+	q.list("final-list")
+}
+
+// directed histories (independent of the seed)
+func (q *seqRun) directed(which int) {
+	T := q.T
+	one := func(cr int64, ttl int32, delta int64) seqEnt {
+		return seqEnt{cr: cr, mt: cr, ttl: ttl, chunks: []int{q.newChunk(ttl, uint64(cr*int64(ns)+delta))}}
+	}
+	switch which {
+	case 0:
+		// created 57 s ago with TtlSec 60, appended to now, looked up after Crtime + 60 s:
+		// Crtime stayed, Mtime moved, the first chunk is expired -> the entry must be gone
+		q.create(0, one(T-57, 60, 1000000), false, "create f0 57s-old ttl60")
+		q.create(1, one(T-57, 60, 1000000), false, "create f1 57s-old ttl60")
+		q.modify(0, 60, "modify f0")
+		x1 := one(T, 60, 1000000) // plain overwrite: fresh Crtime in the request, the old one is kept
+		q.create(1, x1, false, "overwrite f1")
+		x2 := one(T-57, 60, 1000000)
+		x2.cr, x2.mt = T, T
+		q.insert(2, one(T-57, 60, 1000000), "insert f2 57s-old ttl60")
+		q.update(2, x2, "update f2")
+		q.find(0, "find f0")
+		q.list("list")
+		q.sleepUntil(uint64(T+3)*ns + 1200*1000000)
+		q.find(0, "find-after-wait f0")
+		q.find(1, "find-after-wait f1")
+		q.list("list-after-wait")
+		q.find(2, "find-after-wait f2")
+	case 1:
+		// raw entries whose Mtime is later than their Crtime, on both sides of Crtime + TtlSec
+		a := one(T-65, 60, 1)
+		a.mt = T
+		b := one(T-55, 60, 1)
+		b.mt = T - 200
+		c := one(T-3700, 3600, 500000000)
+		c.mt = T - 10
+		q.insert(0, a, "insert f0 65s-old ttl60 mtime=now")
+		q.insert(1, b, "insert f1 55s-old ttl60 mtime-older")
+		q.insert(2, c, "insert f2 3700s-old ttl3600 mtime-10s")
+		q.list("list")
+		q.insert(0, a, "insert f0 65s-old ttl60 mtime=now")
+		q.find(0, "find f0")
+		q.find(1, "find f1")
+		q.insert(2, c, "insert f2 3700s-old ttl3600 mtime-10s")
+		q.modify(2, 3600, "modify f2")
+		q.find(2, "find f2")
+	default:
+		// finding 0 seen from the filer: TtlSec 90 -> chunks in a "1m" volume; the entry is
+		// visible for 90 s, its chunk for 60 s
+		q.create(0, one(T-75, 90, 1000000), false, "create f0 75s-old ttl90")
+		q.create(1, one(T-30, 90, 1000000), false, "create f1 30s-old ttl90")
+		q.create(2, one(T-100, 90, 1000000), false, "create f2 100s-old ttl90")
+		q.find(0, "find f0")
+		q.find(1, "find f1")
+		q.find(2, "find f2")
+		q.list("list")
+	}
+}
+
+func (e *env) filerSeqCase(out *hx.Out, r *hx.Rng, which int, kind string) {
+	f := e.filer()
+	for attempt := 0; ; attempt++ {
+		if attempt >= 8 {
+			panic("filer history: a deadline fell inside a clock bracket 8 times in a row")
+		}
+		e.nextEnt++
+		q := &seqRun{e: e, f: f, dir: fmt.Sprintf("/c09/s%d", e.nextEnt), byFid: map[string]int{},
+			crs: map[int64]bool{}, ttls: map[int32]bool{}, counts: map[string]int{}}
+		// start early in a second so that whole-second deadlines stay away from the steps
+		for nowNs()%ns > 600000000 {
+			time.Sleep(50 * time.Millisecond)
+		}
+		q.T = int64(nowS())
+		if which >= 0 {
+			q.directed(which)
+		} else {
+			rr := *r // the same choices on every attempt
+			q.random(&rr)
+		}
+		if !q.clean() {
+			out.Count("fseq:retry-deadline-in-bracket", 1)
+			continue
+		}
+		var cks []string
+		for _, c := range q.chunks {
+			cks = append(cks, fmt.Sprintf("{| ck_id := %s; ck_s := %s; ck_append := %s; ck_minutes := %s |}",
+				hx.N(uint64(c.id)), hx.Z(int64(c.s)), hx.N(c.append), hx.N(c.minutes)))
+		}
+		keys := make([]string, 0, len(q.counts))
+		for k := range q.counts {
+			keys = append(keys, k)
+		}
+		sort.Strings(keys)
+		for _, k := range keys {
+			out.Count(k, q.counts[k])
+		}
+		out.Add("(CFilerSeq "+hx.List(cks)+" "+hx.List(q.steps)+")", "Q:"+strings.Join(q.canon, ";"), q.seen > 0, kind)
+		return
+	}
 }
 
 // ---------- witnesses of the confirmed findings (first cases of every shard) ----------
